@@ -100,6 +100,15 @@ CHECKS = {
             'CONCATENATE over all ordered pairs/triples of 12 operand values; VALUE over the decimal grid texts with sign, padding, '
             'exponent and percent forms',
             'trusted: re/str of Python; mc/ref/formula.py text forms', 'DESIGN.md section 2 C17'),
+    'C14': ('bounded-exhaustive enumeration of key columns x lookup values x match modes x table shapes, INDEX index boxes and '
+            'every column number for ADDRESS/COLUMN on the real pipeline, judged by an independent linear search and base-26 routine',
+            'all key columns of length 1..4 over 3 numeric and 3 text keys x 7/4 lookup values x VLOOKUP (widths 1..3, every result '
+            'column, 5 range_lookup spellings), MATCH (3), XMATCH (4 judged + 6 explored mode pairs), INDEX(MATCH) as overrides and '
+            '(length<=3) as constants with literal lookup values; INDEX over 5 areas + a two-area form x r,c in -1..4 x area '
+            'number 1..3; ADDRESS for 3 rows x every column 1..16384; COLUMN in 6 spellings over the boundary columns (every '
+            'column 1..16384 thorough), COLUMN() in 6 columns with and without an entry cell',
+            'trusted: planted unique partner values; openpyxl get_column_letter cross-checks the base-26 routine',
+            'DESIGN.md section 2 C14'),
 }
 
 PENDING_REASON = 'check not built yet in this session; see DESIGN.md section 2 for the planned model-checking approach'
